@@ -345,6 +345,16 @@ class Prop(common.PropertyCheck):
         except Exception as e:
             out['inj_err'] = type(e).__name__ + ':' + str(e)[:100]
             return out
+        # the last channel calibrated on its own while the clustering still uses every channel (one of which has a subpopulation piled up at its limit):
+        # the subpopulations taking part in its fit are those of the joint calibration -- what happens in a clustering-only channel does not matter
+        if case['saturate'] and nch >= 2:
+            try:
+                np.random.seed(1)
+                rsub = FlowCal.mef.get_transform_fxn(d, [mv_arg[-1]], [chans[-1]], clustering_fxn=lambda data, n, **kw: true_labels.copy(), clustering_channels=chans,
+                                                     statistic_fxn=statf, full_output=True)
+                out['sub_same'] = bool([bits(v) for v in rsub.selection['rfi'][0]] == out['inj']['rfi'][-1] and [bits(v) for v in rsub.selection['mef'][0]] == out['inj']['mef'][-1])
+            except Exception as e:
+                out['sub_same'] = 'raised ' + type(e).__name__ + ': ' + str(e)[:60]
         # the same with the selection step switched off (selection_fxn=None): unknown entries still take no part, every other subpopulation does
         try:
             np.random.seed(1)
@@ -502,6 +512,8 @@ class Prop(common.PropertyCheck):
             mv = impl['mef_values'][ci][j]
             if mv is not None and mv in inj['mef'][ci]:
                 return 'channel %d: subpopulation %d is piled up at a detector limit but took part in the fit (%s)' % (ci, j, tag)
+        if impl.get('sub_same') not in (None, True):
+            return 'calibrating the last channel alone (clustering on all channels) selects other subpopulations for its fit than the joint calibration does (%s; %s)' % (impl['sub_same'], tag)
         if not (impl['inj_acc'] <= 0.10):
             return 'with the true grouping the conversion is %.1f%% off the truth (%s)' % (100 * impl['inj_acc'], tag)
         # stage (ii): the real clustering
